@@ -241,7 +241,7 @@ func runWorkload(c c05Case, end string, f *sim.Fault) (out c05Run) {
 			}
 		}
 	}
-	if leaks := sim.DrpcGoroutines(sim.Snapshot()); len(leaks) > 0 {
+	if leaks := w.Leaks(sim.Snapshot()); len(leaks) > 0 {
 		fail("library goroutines remain after the connection failed")
 		for _, g := range leaks {
 			out.detail += g.Frames + "\n\n"
